@@ -15,7 +15,7 @@ structure Range (α : Type) where
   incMin : Bool := false
   incMax : Bool := false
   text : Option String := none
-deriving Repr
+deriving Repr, DecidableEq
 
 namespace Range
 variable {α : Type} [LinPre α]
@@ -109,7 +109,7 @@ def and (s o : Range α) : Option (Range α) :=
 inductive OrRes (α : Type) where
   | one (r : Range α)
   | two (a b : Range α)
-deriving Repr
+deriving Repr, DecidableEq
 
 /-- `__or__` on two ranges (range.py:229-263). -/
 def or (s o : Range α) : OrRes α :=
